@@ -188,6 +188,38 @@ def op_one(task):
     return {"violations": [m] if m else []}
 
 
+def op_two_headers(task):
+    """inc/libft.h with a correct guard and vendor/libft.h whose guard lacks its #define, in one
+    run, both orders; and the erroneous one alone"""
+    viol, cases = [], 0
+    good = HEADER.format(name="libft.h") + "\n#ifndef LIBFT_H\n# define LIBFT_H\n\nint\tft_fa(int c, char **d);\n\n#endif\n"
+    bad = HEADER.format(name="libft.h") + "\n#ifndef LIBFT_H\n\nint\tft_fa(int c, char **d);\n\n#endif\n"
+    for order in (("inc/libft.h", "vendor/libft.h"), ("vendor/libft.h", "inc/libft.h"), ("vendor/libft.h",)):
+        d = tempfile.mkdtemp(prefix="c14_")
+        try:
+            for sub, text in (("inc", good), ("vendor", bad)):
+                os.makedirs(os.path.join(d, sub))
+                with open(os.path.join(d, sub, "libft.h"), "w") as fh:
+                    fh.write(text)
+            cases += 1
+            rc, out, err = run_cli(["-f", "json"] + list(order), d)
+            try:
+                data = json.loads(out[out.index('{"files"'):])
+            except Exception:
+                viol.append(f"arguments {order}: no JSON report ({err.strip().splitlines()[-1:]})")
+                continue
+            for f in data["files"]:
+                names = [e["name"] for e in f["errors"]]
+                isbad = os.sep + "vendor" + os.sep in f["path"]
+                if isbad and "HEADER_PROT_NODEF" not in names:
+                    viol.append(f"arguments {order}: vendor/libft.h (guard without #define) gets {names}, HEADER_PROT_NODEF expected")
+                if not isbad and any(n.startswith("HEADER_PROT") for n in names):
+                    viol.append(f"arguments {order}: inc/libft.h (correct guard) gets {names}")
+        finally:
+            shutil.rmtree(d, ignore_errors=True)
+    return {"cases": cases, "violations": viol}
+
+
 def op_fatal_texts(task):
     """texts that the library run stops with the fatal parse error: through the real command line
     each must print the fatal diagnostic, no `OK!`, and exit non-zero"""
@@ -213,7 +245,7 @@ def op_fatal_texts(task):
 
 def main():
     task = json.load(sys.stdin)
-    out = {"search": op_search, "one": op_one, "fatal_texts": op_fatal_texts,
+    out = {"search": op_search, "one": op_one, "fatal_texts": op_fatal_texts, "two_headers": op_two_headers,
            "same_content": lambda t: {"violations": [m for m in [check_same_content_headers(tuple(t["order"]))] if m]}}[task["op"]](task)
     json.dump(out, sys.stdout)
 
